@@ -115,6 +115,28 @@ func c02Scenario(cfg c02Config) {
 	zz.Assert("C02.no_request_counted_twice", started+dropped+residue <= requested)
 	zz.Assert("C02.started_within_limit", limit == 0 || uint64(started) <= limit)
 	zz.Assert("C03.exactly_limit_when_limit_ends_run", !limitHit || uint64(started) == limit)
+	// requests made when the limit had already been reached (a worker was refused an id before the tick was
+	// issued) can only fail because of the limit: they must never be reported as dropped
+	droppable := int64(0)
+	for i := 0; i < cfg.ticks; i++ {
+		late := false
+		for w := 0; w < cfg.workers; w++ {
+			if zz.Happened("refused", c02FirstTid+w) && zz.Before("refused", "tick", c02FirstTid+w, i) {
+				late = true
+			}
+		}
+		if !late {
+			droppable += int64(zz.Int("n", i))
+		}
+	}
+	refusals := int64(0)
+	for w := 0; w < cfg.workers; w++ {
+		if zz.Happened("refused", c02FirstTid+w) {
+			refusals++ // each refusal consumed one admitted request (its take succeeded)
+		}
+	}
+	// the requests of the not-late ticks pay for every start, every refused take and every reported drop
+	zz.Assert("C02.limit_starved_requests_never_reported_dropped", dropped+started+refusals <= droppable)
 	if !limitHit && !envCancels {
 		// all ticks were admitted (the context is cancelled only after the last tick): full conservation
 		zz.Assert("C02.conserved_without_limit", started+dropped == requested && residue == 0)
@@ -130,3 +152,14 @@ func c02Scenario(cfg c02Config) {
 //verif:replace (*$M/internal/workers.ActiveScenario).RecordDroppedIteration c02DroppedFn
 //verif:replace (*$M/internal/workers.PoolManager).NextIteration c02NextIteration
 func VerifC02_OneWorker() { c02Scenario(c02Config{workers: 1, ticks: 2, nmax: 2, maxLimit: 2}) }
+
+// VerifC02_TwoWorkers: 2 workers, 2 ticks of 0..2 requests, limit 0..2, cancellation at any moment.
+//
+//verif:conc
+//verif:unroll 3
+//verif:timeout 600
+//verif:tier thorough
+//verif:replace (*$M/internal/workers.ActiveScenario).Run c02RunFn
+//verif:replace (*$M/internal/workers.ActiveScenario).RecordDroppedIteration c02DroppedFn
+//verif:replace (*$M/internal/workers.PoolManager).NextIteration c02NextIteration
+func VerifC02_TwoWorkers() { c02Scenario(c02Config{workers: 2, ticks: 2, nmax: 2, maxLimit: 2}) }
